@@ -224,7 +224,7 @@ fn all_configs(ctx: &Ctx, st: &mut Stats) -> Vec<Violation> {
 }
 
 pub fn run(ctx: &Ctx, st: &mut Stats) -> Vec<Violation> {
-    let mut v = run_proptest(ctx, st, "random", ctx.pick(20_000, 300_000), strategy, check);
+    let mut v = run_proptest(ctx, st, "random", ctx.cases(60_000, 600_000), strategy, check);
     if !v.is_empty() {
         return v;
     }
